@@ -1,4 +1,5 @@
 pub mod c01;
+pub mod c03;
 pub mod c11;
 pub mod c12;
 pub mod front;
@@ -46,6 +47,7 @@ use crate::runner::{Report, Tier};
 pub fn run(id: &str, tier: Tier, seed: u64) -> Option<Report> {
     Some(match id {
         "C01" => c01::run(tier, seed),
+        "C03" => c03::run(tier, seed),
         "C11" => c11::run(tier, seed),
         "C12" => c12::run(tier, seed),
         "C13" => c13::run(tier, seed),
@@ -59,6 +61,7 @@ pub fn run(id: &str, tier: Tier, seed: u64) -> Option<Report> {
 pub fn replay(id: &str, phase: &str, tape: &[u16], seed: u64) -> Option<Report> {
     Some(match id {
         "C01" => c01::replay(phase, tape, seed),
+        "C03" => c03::replay(phase, tape, seed),
         "C11" => c11::replay(phase, tape, seed),
         "C12" => c12::replay(phase, tape, seed),
         "C13" => c13::replay(phase, tape, seed),
